@@ -772,7 +772,7 @@ pub fn run_group_raw(units: &[&Unit], dir: &Path, src: &Path, drv_classes: &Path
     }
     let (res, _) = run_driver_with(n_ops, usize::MAX, &dir.join("out.txt"), &unit_ends, &|start, _quiet| {
         let mut c = Command::new("timeout");
-        c.args(["-s", "KILL", "300", "java", "-XX:TieredStopAtLevel=1", "-XX:+UseSerialGC", "-Xshare:auto", "-Xmx1g", "-Xss2m", "-cp"]).arg(&cp).arg("Drv").arg(&tf).arg(start.to_string());
+        c.args(["-s", "KILL", "3600", "java", "-XX:TieredStopAtLevel=1", "-XX:+UseSerialGC", "-Xshare:auto", "-Xmx1g", "-Xss2m", "-cp"]).arg(&cp).arg("Drv").arg(&tf).arg(start.to_string());
         c
     });
     t.run.fetch_add(t1.elapsed().as_millis() as u64, Ordering::Relaxed);
@@ -837,7 +837,7 @@ pub fn check_on(tier: Tier, only: Option<Vec<Selected>>) -> i32 {
     }
     let thorough = tier == Tier::Thorough;
     let limit: usize = std::env::var("PDLMC_LIMIT").ok().and_then(|s| s.parse().ok()).unwrap_or(usize::MAX);
-    let stride: usize = std::env::var("PDLMC_JAVA_STRIDE").ok().and_then(|s| s.parse().ok()).unwrap_or(if thorough { 4 } else { 2 });
+    let stride: usize = std::env::var("PDLMC_JAVA_STRIDE").ok().and_then(|s| s.parse().ok()).unwrap_or(if thorough { 16 } else { 2 });
     let group: usize = std::env::var("PDLMC_JAVA_GROUP").ok().and_then(|s| s.parse().ok()).unwrap_or(16);
     let jobs: Vec<&Selected> = sel.states.iter().step_by(if single { 1 } else { stride.max(1) }).take(limit).collect();
     let timers = Timers { cc: AtomicU64::new(0), run: AtomicU64::new(0) };
